@@ -52,6 +52,11 @@ THEOREMS = [
         "label2d_total", "frames2d_length_order_time", "cameras_selected", "ego2map_2d",
         "objects2d_per_annotation", "roi_truncates_toward_zero", "traffic_light_uuid",
         "merged_traffic_lights", "load2d_total",
+        # audit round 2: velocities with Python's outcome for a zero time difference made explicit (velocityPy)
+        "velocity_py_refines", "velocity_formula_py", "velocity_formula_guarded", "velocity_div0_outcome",
+        "velocity_no_div0", "objects_velocity_py", "exTables_timeOrdered",
+        # any lidar calibration; non-unit quaternions (normalising variants, Lean only); the stored transform as the C18 object
+        "ego_pose_any_calibration", "nonunit_variants_agree_on_unit", "pose_roundtrip_any_nonzero", "ego2map_is_c18_transform",
     ]
 ]
 RULE = (
@@ -115,7 +120,21 @@ TRUSTED = [
     "the dataset writer write_dataset (abstract tables -> the devkit's JSON files) and the boilerplate tables log/map/scene/surface_ann",
     "python set iteration order (merged traffic lights) is unspecified: merged objects are compared as a set keyed by uuid",
 ]
+def _window_check():
+    """audit C16-9: the model compares integer microseconds (`el < 3150000`), the devkit float seconds
+    (`abs(t1 - t2) / 1e6 < 3.0 + 0.15`); checked on this interpreter for every difference within 1 ms of the boundary"""
+    t0 = 1_600_000_000_000_000
+    b = 3.0 + 0.15
+    return b == 3.15 and all(((abs((t0 + d) - t0) / 1e6) < b) == (d < 3_150_000) for d in range(3_149_000, 3_151_001))
+
+
 ASSUMPTIONS = [
+    f"history window: float test `abs(dt)/1e6 < 3.0 + 0.15` == integer test `dt < 3150000 us` for every dt within 1 ms of the boundary "
+    f"(computed on this interpreter: {_window_check()})",
+    "velocities, zero time difference (audit C16-2): two samples with the same timestamp make _get_box_velocity / box_velocity divide by "
+    "0.0 (inf / -inf / nan components, no exception); the schema excludes it (prev / next go back / forward in time: Lean `TimeOrdered`), "
+    "`WellFormed` does not; the outcome is modelled explicitly (`velocityPy`, `Vel.div0`) and compared per annotation on the corpus cases "
+    "flagged `vel_direct`; the frame-level comparison of such a case accepts the load model's 0 against Python's inf / nan",
     "well-formed datasets only: tokens unique per table, every referenced token resolves, annotation prev/next link the "
     "annotations of one instance in sample order, sample table in time order; two deliberately ill-formed shapes are "
     "included because the loader names them: no sample at all (DatasetLoadingError) and no LIDAR_TOP/LIDAR_CONCAT "
@@ -790,6 +809,33 @@ def corpus():
                                          "translation": [str(700 + 3 * i + j), str(-20 + i * i), "1/2"], "size": ["2", "4", "3/2"],
                                          "rotation": ["3/5", "0", "0", "4/5"], "num_lidar_pts": 5, "prev": "", "next": ""})
         cs.append(relink(c))
+    # audit round 2 (C16-2): consecutive samples with the SAME timestamp -> time_diff == 0.0 in _get_box_velocity / box_velocity:
+    # numpy returns inf / -inf / nan components without raising; compared per annotation with the model's `velocityPy` (op "vel").
+    # Outside the schema (prev / next must go back / forward in time) but inside the model's `WellFormed`.
+    for seed, stamps in ((11, [0, 0, 500_000, 500_000]), (12, [0, 500_000, 500_000, 1_000_000, 1_000_000])):
+        c = gen_dataset(_r.Random(seed), n_samples=len(stamps))
+        for s_, dt in zip(c["samples"], stamps):
+            s_["timestamp"] = 1_600_000_000_000_000 + dt
+        for x in c["sample_data"]:
+            x["timestamp"] = next(s_["timestamp"] for s_ in c["samples"] if s_["token"] == x["sample_token"])
+        for j in range(3):  # present throughout (moving / standing still) / in every other sample
+            c["instances"].append({"token": f"w{j}", "category_token": c["categories"][0]["token"], "instance_name": ""})
+            for i, s_ in enumerate(c["samples"]):
+                if j == 2 and i % 2:
+                    continue
+                tr = [str(700 + 3 * i), str(-20 - i * i), "1/2"] if j != 1 else ["650", "-30", "1/2"]
+                c["annotations"].append({"token": f"aw{j}{i}", "sample_token": s_["token"], "instance_token": f"w{j}",
+                                         "visibility_token": c["visibility"][0]["token"] if c["visibility"] else "", "attribute_tokens": [],
+                                         "translation": tr, "size": ["2", "4", "3/2"],
+                                         "rotation": ["3/5", "0", "0", "4/5"], "num_lidar_pts": 5, "prev": "", "next": ""})
+        c = relink(c)
+        c["vel_direct"] = True
+        cs.append(c)
+    # the same direct per-annotation comparison on ordinary datasets
+    for seed in (21, 22):
+        c = gen_dataset(_r.Random(seed), n_samples=5)
+        c["vel_direct"] = True
+        cs.append(c)
     # F13 (fixed): visibility must be the Visibility member (not a string) — one annotation per level
     c = _fixed_case()
     c["visibility"] = [{"token": f"t{k}", "level": l} for k, l in enumerate(LEVELS)]
@@ -1071,6 +1117,7 @@ def run_impl(case):
                 results.append({"frames": _canon_frames(frames)})
             except Exception as e:
                 results.append({"err": type(e).__name__})
+        vel_direct = _vel_direct(case, root) if case.get("vel_direct") else None
         results2d = []
         for task, family, merge, frames in case.get("configs2d", []):
             try:
@@ -1083,7 +1130,49 @@ def run_impl(case):
                 results2d.append({"err": type(e).__name__})
     finally:
         shutil.rmtree(root, ignore_errors=True)
-    return {"results": results, "results2d": results2d}
+    out = {"results": results, "results2d": results2d}
+    if vel_direct is not None:
+        out["vel_direct"] = vel_direct
+    return out
+
+
+def _fnum(x):
+    """a float as JSON-able text-or-number: inf / -inf / nan as strings"""
+    import math
+
+    x = float(x)
+    return "nan" if math.isnan(x) else "inf" if x == math.inf else "-inf" if x == -math.inf else x
+
+
+def _vel_direct(case, root):
+    """audit round 2: `_get_box_velocity` (the loader's) and the devkit's `box_velocity` called directly for EVERY annotation of the
+    written dataset: token -> {"cur": None | 3 numbers/'inf'/'-inf'/'nan', "dev": likewise}"""
+    import contextlib
+    import io
+    import warnings
+
+    import numpy as np
+    from nuscenes.nuscenes import NuScenes
+    from perception_eval.common.dataset_utils import _get_box_velocity
+
+    try:
+        with contextlib.redirect_stderr(io.StringIO()), contextlib.redirect_stdout(io.StringIO()):
+            nusc = NuScenes(version="annotation", dataroot=root, verbose=False)
+        res = {}
+        with warnings.catch_warnings(), np.errstate(all="ignore"):
+            warnings.simplefilter("ignore")
+            for a in case["annotations"]:
+                one = {}
+                for key, fn in (("cur", lambda t: _get_box_velocity(nusc, t)), ("dev", lambda t: nusc.box_velocity(t))):
+                    try:
+                        v = fn(a["token"])
+                        one[key] = None if v is None else [_fnum(x) for x in v]
+                    except Exception as e:  # noqa: BLE001
+                        one[key] = {"err": type(e).__name__}
+                res[a["token"]] = one
+        return res
+    except Exception as e:  # noqa: BLE001
+        return {"err": type(e).__name__}
 
 
 # ----------------------------------------------------------------------------- the model
@@ -1098,7 +1187,10 @@ def model_requests(case, out):
     req = dict(tables, op="load", configs=[{"task": t, "frame": f, "merge": bool(m)} for t, f, m in case["configs"]])
     req2 = dict(tables, op="load2d", configs=[{"task": t, "family": fam, "merge": bool(m), "frames": list(fr)}
                                               for t, fam, m, fr in case.get("configs2d", [])])
-    return [req, req2, dict(tables, op="tlr")]
+    reqs = [req, req2, dict(tables, op="tlr")]
+    if case.get("vel_direct"):
+        reqs.append(dict(tables, op="vel"))
+    return reqs
 
 
 def _qrot(qs):
@@ -1128,7 +1220,11 @@ def _cmp_pose(tag, pos, rotm, mpos, mrot):
     return None
 
 
-def _cmp_vel(tag, v, m):
+def _cmp_vel(tag, v, m, lenient=False):
+    if lenient and m is not None and all(Fraction(x) == 0 for x in m) and (v is None or any(x != x or abs(x) == float("inf") for x in v)):
+        # `vel_direct` case, division by a zero time difference: the load model (total division) says 0 where Python says
+        # inf / nan (all-nan is canonicalised to None); the outcome itself is compared by _compare_vel_direct
+        return None
     if (v is None) != (m is None):
         return f"{tag}: velocity impl {v} != model {m}"
     if v is not None and not _vclose(v, [Fraction(x) for x in m]):
@@ -1205,7 +1301,53 @@ def compare(case, out, resps):
     d = _compare_main(case, out, resps)
     if d:
         return d
-    return _compare_tlr(case, out, resps[2] if len(resps) > 2 else None)
+    d = _compare_tlr(case, out, resps[2] if len(resps) > 2 else None)
+    if d:
+        return d
+    if case.get("vel_direct"):
+        return _compare_vel_direct(case, out, resps[3] if len(resps) > 3 else None)
+    return None
+
+
+def _compare_vel_direct(case, out, resp):
+    """per annotation: Python's outcome of the two velocity functions against the model's `velocityPy`.  none <-> None / the all-nan
+    vector; finite <-> three numbers within 1e-9; div0 <-> three non-finite components, each inf / -inf / nan by the sign of the
+    model's displacement component (`dev`: exactly; `cur`: its displacement went through a float matrix inverse, so the sign is
+    compared only where the model's component is not within 1e-6 of 0)"""
+    import math
+
+    vd = out.get("vel_direct")
+    if resp is None or "vel" not in resp or not isinstance(vd, dict) or "err" in vd:
+        return f"velocity (direct): impl {vd if not isinstance(vd, dict) or 'err' in vd else 'ok'} / model {resp if resp is None or 'vel' not in resp else 'ok'}"
+    toks = [a["token"] for a in case["annotations"]]
+    if len(set(toks)) != len(toks):
+        return None  # duplicate tokens: `nusc.get` answers the LAST record, the op lists every record
+    for row in resp["vel"]:
+        tok = row["token"]
+        for key in ("cur", "dev"):
+            v, m = vd[tok][key], row[key]
+            tag = f"velocity (direct) {key} of {tok}"
+            if isinstance(v, dict) or (isinstance(m, dict) and "err" in m):
+                if not (isinstance(v, dict) and isinstance(m, dict) and v.get("err") == m.get("err")):
+                    return f"{tag}: impl {v} != model {m}"
+                continue
+            is_nan3 = v is not None and all(x == "nan" for x in v)
+            if m is None:
+                if not (v is None or (key == "dev" and is_nan3)):
+                    return f"{tag}: impl {v} != model no estimate"
+                continue
+            if isinstance(m, dict):  # division by a zero time difference
+                if v is None or any(not isinstance(x, str) for x in v):
+                    return f"{tag}: impl {v} != model division by zero {m['comps']}"
+                for x, c, dcomp in zip(v, m["comps"], m["div0"]):
+                    if key == "cur" and abs(float(Fraction(dcomp))) < 1e-6:
+                        continue
+                    if x != c:
+                        return f"{tag}: impl {v} != model {m['comps']} (displacement {m['div0']})"
+                continue
+            if v is None or any(isinstance(x, str) for x in v) or not _vclose(v, [Fraction(x) for x in m]):
+                return f"{tag}: impl {v} != model {[float(Fraction(x)) for x in m]}"
+    return None
 
 
 def _compare_main(case, out, resps):
@@ -1243,7 +1385,7 @@ def _compare_main(case, out, resps):
                         return f"{t3}: {k} impl {o[k]!r} != model {m[k]!r}"
                 if not _vclose(o["size"], [Fraction(s) for s in m["size"]]):
                     return f"{t3}: size impl {o['size']} != model {m['size']}"
-                d = _cmp_pose(t3, o["pos"], o["rot"], m["pos"], m["rot"]) or _cmp_vel(t3, o["vel"], m["vel"])
+                d = _cmp_pose(t3, o["pos"], o["rot"], m["pos"], m["rot"]) or _cmp_vel(t3, o["vel"], m["vel"], bool(case.get("vel_direct")))
                 if d:
                     return d
                 if (o["tracked"] is None) != (m["tracked"] is None):
@@ -1253,7 +1395,7 @@ def _compare_main(case, out, resps):
                         return f"{t3}: history length impl {len(o['tracked'])} != model {len(m['tracked'])}"
                     for h, (p, r) in enumerate(zip(o["tracked"], m["tracked"])):
                         d = (_cmp_pose(f"{t3} history {h}", p["pos"], p["rot"], r["pos"], r["rot"])
-                             or _cmp_vel(f"{t3} history {h}", p["vel"], r["vel"]))
+                             or _cmp_vel(f"{t3} history {h}", p["vel"], r["vel"], bool(case.get("vel_direct"))))
                         if d:
                             return d
                         if p["size"] is None or not _vclose(p["size"], [Fraction(s) for s in r["size"]]):
@@ -1567,6 +1709,16 @@ def branches(case, out):
     if not A:
         br.append("trivial")
     br.append(f"samples:{len(S)}")
+    vd = out.get("vel_direct")
+    if isinstance(vd, dict) and "err" not in vd:
+        kinds = set()
+        for one in vd.values():
+            for key in ("cur", "dev"):
+                v = one.get(key)
+                kinds.add(f"vel-direct:{key}:" + ("none" if v is None or (isinstance(v, list) and all(x == "nan" for x in v))
+                                                   else "err" if isinstance(v, dict)
+                                                   else "div0" if any(isinstance(x, str) for x in v) else "finite"))
+        br.extend(sorted(kinds))
     br.append(f"json-numbers:{case.get('json_ints') or 'floats'}")
     if case.get("json_ints") in ("all", True):
         picked = [_picked_lidar(case, s_["token"]) for s_ in S]
